@@ -50,6 +50,8 @@ __attribute__((used, visibility("default"))) const char* __asan_default_options(
          "print_summary=1:symbolize=1:detect_odr_violation=0";
 }
 __attribute__((used, visibility("default"))) const char* __ubsan_default_options() {
+  // ThreadSanitizer reads the UBSan flags as common flags: keep them away from the tsan flavour
+  if (SIM_FLAVOUR[0] == 't') return "";
   return "print_stacktrace=0:halt_on_error=1:exitcode=77:print_summary=1";
 }
 __attribute__((used, visibility("default"))) const char* __tsan_default_options() {
@@ -205,11 +207,11 @@ static const Finding* match_finding(const std::vector<Finding>& fs, const ExecRe
 // ---- minimisation -------------------------------------------------------------
 static json minimise(Profile* prof, json plan, const std::string& vclass, int timeout_s, long* reruns) {
   double t0 = now_s(); long n = 0; bool progress = true;
-  while (progress && n < 600 && now_s() - t0 < 120) {
+  while (progress && n < 200 && now_s() - t0 < 45) {
     progress = false;
     std::vector<json> cands = prof->shrink(plan);
     for (json& c : cands) {
-      if (n >= 600 || now_s() - t0 > 120) break;
+      if (n >= 200 || now_s() - t0 > 45) break;
       ++n;
       ExecResult r = run_isolated(prof, c, timeout_s);
       if (r.vclass == vclass) { plan = c; progress = true; break; }
@@ -269,6 +271,7 @@ static int cmd_replay(const std::string& path) {
   std::string err;
   ExecResult r = run_isolated(prof, plan, prof->watchdog_s() * 2, &err);
   json expect = plan.value("expect", json::object());
+  if (getenv("BLOCSIM_SHOW_STDERR")) printf("---- stderr of the run ----\n%s\n----\n", err.c_str());
   printf("result: class=%s hash=%s\n", r.vclass.empty() ? "(none)" : r.vclass.c_str(), hex64(r.trace_hash).c_str());
   if (!r.message.empty()) printf("message: %s\n", r.message.c_str());
   if (!r.vclass.empty()) {
@@ -291,9 +294,19 @@ int main(int argc, char** argv) {
   {
     char self[4096]; ssize_t n = readlink("/proc/self/exe", self, sizeof self - 1); if (n < 0) n = 0; self[n] = 0;
     std::string s(self); size_t p = s.rfind('/'); g_bindir = p == std::string::npos ? "." : s.substr(0, p);
-    // modules are resolved through LD_LIBRARY_PATH-independent runpath ($ORIGIN); also export for dlopen by name
-    std::string ld = g_bindir; const char* old = getenv("LD_LIBRARY_PATH"); if (old && *old) ld += std::string(":") + old;
-    setenv("LD_LIBRARY_PATH", ld.c_str(), 1);
+    // re-exec once with the sanitizer options and the module path in the environment (the runtimes read
+    // them before main; the *_default_options hooks above are kept as a second line of defence)
+    if (!getenv("BLOCSIM_REEXEC")) {
+      std::string ld = g_bindir; const char* old = getenv("LD_LIBRARY_PATH"); if (old && *old) ld += std::string(":") + old;
+      setenv("LD_LIBRARY_PATH", ld.c_str(), 1);
+      setenv("ASAN_OPTIONS", __asan_default_options(), 1);
+      setenv("UBSAN_OPTIONS", __ubsan_default_options(), 1);
+      setenv("TSAN_OPTIONS", __tsan_default_options(), 1);
+      setenv("LSAN_OPTIONS", __lsan_default_options(), 1);
+      setenv("BLOCSIM_REEXEC", "1", 1);
+      execv(self, argv);
+      perror("execv"); return 2;
+    }
   }
   { struct rlimit rl; if (getrlimit(RLIMIT_STACK, &rl) == 0) { rl.rlim_cur = rl.rlim_max == RLIM_INFINITY ? (256UL << 20) : std::min<rlim_t>(rl.rlim_max, 256UL << 20); setrlimit(RLIMIT_STACK, &rl); } }
   { struct rlimit rl = {0, 0}; setrlimit(RLIMIT_CORE, &rl); }
@@ -484,7 +497,8 @@ int main(int argc, char** argv) {
       if (known_ids_printed.insert(fd->id).second) printf("KNOWN-FINDING: property=%s %s [%s]\n", o.prop.c_str(), fd->what.c_str(), fd->id.c_str());
       continue;
     }
-    long rr = 0; json minp = minimise(prof, c.plan, a.vclass, prof->watchdog_s() * 2, &rr); minimise_reruns += rr;
+    long rr = 0; json minp = c.plan;
+    if (violations < 3) { minp = minimise(prof, c.plan, a.vclass, prof->watchdog_s() * 2, &rr); minimise_reruns += rr; }
     ExecResult m = run_isolated(prof, minp, prof->watchdog_s() * 2);
     if (m.vclass != a.vclass) { minp = c.plan; m = a; }
     // the minimised plan may fall into a listed finding
@@ -492,7 +506,7 @@ int main(int argc, char** argv) {
     if (fd) { if (known_ids_printed.insert(fd->id).second) printf("KNOWN-FINDING: property=%s %s [%s]\n", o.prop.c_str(), fd->what.c_str(), fd->id.c_str()); continue; }
     minp["property"] = o.prop; minp["expect"] = json{{"violation", m.vclass}, {"trace_hash", hex64(m.trace_hash)}, {"message", m.message}};
     minp["found_by"] = json{{"seed", o.seed}, {"tier", o.tier}, {"origin", c.origin}, {"flavour", flavour()}};
-    std::string path = o.outdir + "/violations/" + o.prop + "-" + hex64(fnv1a(m.vclass) ^ m.trace_hash).substr(0, 12) + ".plan.json";
+    std::string path = o.outdir + "/violations/" + o.prop + "-" + hex64(fnv1a(m.vclass + "|" + minp.dump(-1, ' ', false, json::error_handler_t::replace))).substr(0, 12) + ".plan.json";
     write_file(path, minp.dump(1, ' ', false, json::error_handler_t::replace));
     // fresh process replay must reproduce it exactly
     char rp[4096]; if (!realpath(path.c_str(), rp)) strcpy(rp, path.c_str());
